@@ -25,14 +25,44 @@
                                    have at least one possible type)
   `c09_partial_typed`: with these hypotheses, rejected ↔ invalid restricted to 13 of the 22 rule structs
   (+ walker + parser checks) and 18 of the 28 reference rules.
-  NOT proved per rule: KnownArgumentNames (stale `current_args`),
-  ArgumentsOfCorrectType, DefaultValuesOfCorrectType, NoFragmentCycles, NoUnusedFragments,
-  NoUndefinedVariables, NoUnusedVariables, VariableInAllowedPosition, OverlappingFieldsCanBeMerged
-  (+ the recursion guard).
+  Graph rules PROVED under `GraphHyp` (the parser's three uniqueness checks passed, every operation
+  has a root type) — Lemmas/ValidateGraph*.lean: the three fuelled worklist searches (`closure`,
+  `fragReach`, the model's `reach`) compute reachability, the scope table of the walk is one record
+  per fragment / operation:
+    NoFragmentCycles             = 5.5.2.2 Fragment Spreads Must Not Form Cycles   (+ the parser's recursion guard ⇒ 5.5.2.2)
+    NoUnusedFragments            = 5.5.1.4 Fragments Must Be Used
+    NoUndefinedVariables         = 5.8.3 All Variable Uses Defined
+    NoUnusedVariables            = 5.8.4 All Variables Used
+    VariableInAllowedPosition    = 5.8.5 All Variable Usages Are Allowed  (well-formed registry; no variable
+                                   whose default is the literal `null`: the implementation counts it as
+                                   a default, IsVariableUsageAllowed does not — `c09_counterexample_null_default`)
+  `c09_partial_graph`: rejected ↔ invalid restricted to 18 of the 22 rule structs (+ walker + all four
+  parser checks) and 23 of the 28 reference rules, variables allowed everywhere.
+  The remaining rules, each PROVED under the hypothesis its counterexample shows to be necessary:
+    KnownArgumentNames           = 5.4.1 Argument Names  (the rule keeps `current_args` across a field it does
+                                   not know: fields carrying arguments are fields of their parent type,
+                                   `__typename` carries none — `c09_counterexample_typename_arguments`)
+    DefaultValuesOfCorrectType   = default-value half of 5.6  (relative to `DefaultsAgree`)
+    ArgumentsOfCorrectType       = argument half of 5.6  (arguments are literals WITHOUT variables, relative to
+                                   `ArgLiteralsAgree`; with variables the repaired model differs in both
+                                   directions — `c09_counterexample_variable_in_list`, `c09_counterexample_enum_variable`)
+    is_valid_input_value         = 5.6.1 on constants without repeated object keys, in registries with scalar
+                                   built-ins and defined input objects (`c09_rule_is_valid_input_value`,
+                                   Lemmas/ValidateLiterals.lean) — which discharges the two `…Agree` hypotheses
+                                   (`c09_literals_agree`, `c09_wf_of_schema`)
+    the three missing rules      = 5.3.2, 5.2.3.1, 6.1.2  (`c09_rule_repaired`, by construction of `repairedErrors`)
+    OverlappingFieldsCanBeMerged ⇒ 5.3.2 Field Selection Merging  (SOUND where every inline fragment carries a
+                                   type condition, Lemmas/ValidateOverlap.lean; with a condition-less inline
+                                   fragment it reports conflicts the reference does not see —
+                                   `c09_counterexample_overlap_untyped_inline`; that it is not complete is
+                                   the open finding C09-overlap-keyed-by-condition)
+  `c09_corrected_wf` (PROVED): under `C09WF` (the hypotheses above) the repaired pipeline rejects exactly
+  the requests the reference validator calls invalid — all 22 rule structs, all 28 reference rules.
 
-  The two statements that were OPEN are FALSE of the model as stated and are refuted by witnesses
-  (`c09_refuted`, `c09_rule_equivalences_refuted`); `c09_rule_equivalences_served` is the corrected,
-  proved form of the second; `c09_corrected` is the corrected form of the first and stays OPEN.
+  The statements that were OPEN are FALSE of the model as stated and are refuted by witnesses
+  (`c09_refuted`, `c09_rule_equivalences_refuted`, `c09_corrected_refuted`);
+  `c09_rule_equivalences_served` is the corrected, proved form of the second, `c09_corrected_wf` of the
+  first and third.
   Two earlier counterexamples are no longer counterexamples of the toggle-free model:
   the `ifdef` exemption of FieldsOnCorrectType is a defect of the pinned tree (toggle
   `ifdefSkipsUnknownField`, finding C09-ifdef-skips-unknown-field, `c09_witness_ifdef`), and the
@@ -83,12 +113,36 @@
   OBLIGATION c09_refuted
   OBLIGATION c09_rule_equivalences_refuted
   OBLIGATION c09_rule_equivalences_served
-  OPEN c09_corrected
+  OBLIGATION c09_rule_no_fragment_cycles
+  OBLIGATION c09_rule_no_unused_fragments
+  OBLIGATION c09_rule_no_undefined_variables
+  OBLIGATION c09_rule_no_unused_variables
+  OBLIGATION c09_rule_recursion_guard
+  OBLIGATION c09_rule_variables_in_allowed_position
+  OBLIGATION c09_rule_known_argument_names
+  OBLIGATION c09_values_of_correct_type_split
+  OBLIGATION c09_rule_default_values
+  OBLIGATION c09_rule_arguments_of_correct_type
+  OBLIGATION c09_rule_repaired
+  OBLIGATION c09_rule_overlapping_fields_sound
+  OBLIGATION c09_counterexample_overlap_untyped_inline
+  OBLIGATION c09_counterexample_null_default
+  OBLIGATION c09_counterexample_typename_arguments
+  OBLIGATION c09_counterexample_variable_in_list
+  OBLIGATION c09_counterexample_enum_variable
+  OBLIGATION c09_counterexample_hyp
+  OBLIGATION c09_corrected_refuted
+  OBLIGATION c09_corrected_wf
+  OBLIGATION c09_wf_example
+  OBLIGATION c09_partial_graph
+  OBLIGATION c09_rule_is_valid_input_value
+  OBLIGATION c09_literals_agree
+  OBLIGATION c09_wf_of_schema
 -/
 import AGV.Model.Validate
 import AGV.Spec.Validate
 import AGV.Gen.Rules
-import AGV.Lemmas.ValidateSpreads
+import AGV.Lemmas.ValidateLiterals
 
 namespace AGV.Props.C09
 open AGV.Core AGV.Model.Validate
@@ -770,9 +824,8 @@ structure C09Hyp (S : VSchema) (d : Doc) (vars : List (String × GValue)) (o : O
   inputs : ∀ t ∈ S.base.types, t.kind = .input → (S.input? t.name).isSome = true
   members : ∀ t ∈ S.base.types, ∀ m ∈ t.members, Spec.Validate.kindIs S m .object = true
 
-/-- CONJECTURED corrected form of `c09` (not proved, not known to be true): under the exclusions
-    above the repaired pipeline rejects exactly the invalid requests.  What is proved of it is
-    `c09_partial` (13 of the 28 reference rules, without any of these hypotheses). -/
+/-- the corrected form of `c09` as first conjectured.  FALSE of the model (`c09_corrected_refuted`):
+    the exclusions of `C09Hyp` are not enough; `c09_corrected_wf` is the statement that holds. -/
 def c09_corrected : Prop :=
   ∀ (S : VSchema) (d : Doc) (vars : List (String × GValue)) (o : Option String), C09Hyp S d vars o →
     ((checkRules S {} d vars o).isRejected = true ↔ ¬ Spec.Validate.Valid {} S d vars o)
@@ -786,5 +839,582 @@ example : C09Hyp S0 dValid [("v", .int 1), ("b", .bool true)] none where
   string := by decide
   inputs := by decide
   members := by decide
+
+-- ------------------------------------------------------------------ the remaining rules
+
+section rules2
+open AGV.Lemmas.ValidateRules AGV.Lemmas.ValidateWalk AGV.Lemmas.ValidateGraph AGV.Lemmas.ValidateSpecNodes
+open AGV.Spec.Validate
+variable (S : VSchema) (d : Doc) (vars : List (String × GValue)) (o : Option String)
+
+/-- what the graph rules presuppose, from the reference rules: §5.2.1.1, §5.2.2.1, §5.5.1.1 hold
+    (the parser checks them before validation) and every operation has a root type -/
+theorem graphHyp_of (h1 : violates_OperationNameUniqueness d = false) (h2 : violates_LoneAnonymousOperation d = false)
+    (h3 : violates_FragmentNameUniqueness d = false) (hs : violates_OperationTypeExists S d = false) : GraphHyp S d :=
+  ⟨h1, h2, h3, served_of S d hs⟩
+
+/-- NoFragmentCycles = §5.5.2.2 Fragment Spreads Must Not Form Cycles -/
+theorem c09_rule_no_fragment_cycles (hG : GraphHyp S d) :
+    Kind.cycle ∈ strictErrors S {} d vars o ↔ violates_FragmentSpreadsMustNotFormCycles d = true := by
+  rw [strict_cycle, scopeTable_events S d hG.nodup, rule_no_fragment_cycles S d hG]; simp
+
+/-- NoUnusedFragments = §5.5.1.4 Fragments Must Be Used -/
+theorem c09_rule_no_unused_fragments (hG : GraphHyp S d) :
+    Kind.unusedFragment ∈ strictErrors S {} d vars o ↔ violates_FragmentsMustBeUsed d = true := by
+  rw [strict_unusedFragment, scopeTable_events S d hG.nodup, rule_no_unused_fragments S d hG]; simp
+
+/-- NoUndefinedVariables = §5.8.3 All Variable Uses Defined -/
+theorem c09_rule_no_undefined_variables (hG : GraphHyp S d) :
+    (Kind.undefVarOp ∈ strictErrors S {} d vars o ∨ Kind.undefVar ∈ strictErrors S {} d vars o) ↔
+      violates_AllVariableUsesDefined d = true := by
+  rw [strict_undefVar S d vars o _ (Or.inl rfl), strict_undefVar S d vars o _ (Or.inr rfl), scopeTable_events S d hG.nodup,
+    ← rule_no_undefined_variables S d hG]
+  constructor
+  · rintro (h | h)
+    · exact ⟨_, h, Or.inl rfl⟩
+    · exact ⟨_, h, Or.inr rfl⟩
+  · rintro ⟨k, hk, rfl | rfl⟩
+    · exact Or.inl hk
+    · exact Or.inr hk
+
+/-- NoUnusedVariables = §5.8.4 All Variables Used -/
+theorem c09_rule_no_unused_variables (hG : GraphHyp S d) :
+    (Kind.unusedVarOp ∈ strictErrors S {} d vars o ∨ Kind.unusedVar ∈ strictErrors S {} d vars o) ↔
+      violates_AllVariablesUsed d = true := by
+  rw [strict_unusedVar S d vars o _ (Or.inl rfl), strict_unusedVar S d vars o _ (Or.inr rfl), scopeTable_events S d hG.nodup,
+    ← rule_no_unused_variables S d hG]
+  constructor
+  · rintro (h | h)
+    · exact ⟨_, h, Or.inl rfl⟩
+    · exact ⟨_, h, Or.inr rfl⟩
+  · rintro ⟨k, hk, rfl | rfl⟩
+    · exact Or.inl hk
+    · exact Or.inr hk
+
+/-- the recursion guard that runs before validation fires only on a fragment cycle (§5.5.2.2) -/
+theorem c09_rule_recursion_guard (h : PreKind.recursionDepth ∈ preErrors d) :
+    violates_FragmentSpreadsMustNotFormCycles d = true := pre_recursionDepth d h
+
+/-- VariableInAllowedPosition = §5.8.5 All Variable Usages Are Allowed (well-formed registry; no
+    variable with the literal `null` as default, see `c09_counterexample_null_default`) -/
+theorem c09_rule_variables_in_allowed_position (hG : GraphHyp S d) (hW : SchemaWF S) (hN : NoNullDefault d) :
+    Kind.varPosition ∈ strictErrors S {} d vars o ↔ violates_AllVariableUsagesAllowed S d = true := by
+  rw [strict_varPosition, scopeTable_events S d hG.nodup]
+  exact rule_variables_in_allowed_position S d hG hW.block.typed (hW.roots d).exist hN
+
+/-- KnownArgumentNames = §5.4.1 Argument Names, where the rule's `current_args` cannot go stale
+    (every field that carries arguments is a field of its parent type) and `__typename` carries no
+    arguments (see `c09_counterexample_typename_arguments`) -/
+theorem c09_rule_known_argument_names (hW : SchemaWF S) (hs : violates_OperationTypeExists S d = false)
+    (hK : ArgsOnKnownFields S d) (hT : ∀ s ∈ allSels d, typenameNoArgs s) :
+    (Kind.unknownArgField ∈ strictErrors S {} d vars o ∨ Kind.unknownArgDir ∈ strictErrors S {} d vars o) ↔
+      violates_ArgumentNames S d = true := by
+  rw [strict_knownArgs S d vars o _ (Or.inr rfl), strict_knownArgs S d vars o _ (Or.inl rfl)]
+  exact rule_known_argument_names S d hW.block.typed (served_of S d hs) (hW.roots d).exist hK hT
+
+/-- §5.6 Values Of Correct Type = its argument half or its default-value half -/
+theorem c09_values_of_correct_type_split :
+    violates_ValuesOfCorrectType S d = ((argSites S d).any (siteBadValue S) || d.ops.any (fun o => o.vars.any (varBadDefault S))) :=
+  valuesOfCorrectType_eq S d
+
+/-- DefaultValuesOfCorrectType = the default-value half of §5.6, up to variables of unknown type
+    (reported by KnownTypeNames / §5.8.2), where `is_valid_input_value` and §5.6.1 agree on the defaults -/
+theorem c09_rule_default_values (hs : violates_OperationTypeExists S d = false) (hD : DefaultsAgree S d) :
+    (Kind.invalidDefault ∈ strictErrors S {} d vars o ∨ ∃ op ∈ d.ops, ∃ v ∈ op.vars, S.exists? v.ty.base = false) ↔
+      (d.ops.any (fun o => o.vars.any (varBadDefault S)) = true ∨ ∃ op ∈ d.ops, ∃ v ∈ op.vars, S.exists? v.ty.base = false) := by
+  rw [strict_stateless S d vars o _ (by decide)]
+  exact rule_default_values S d (served_of S d hs) hD
+
+/-- ArgumentsOfCorrectType = the argument half of §5.6, for documents whose arguments are literals
+    without variables, where `is_valid_input_value` and §5.6.1 agree on these literals -/
+theorem c09_rule_arguments_of_correct_type (hW : SchemaWF S) (hs : violates_OperationTypeExists S d = false)
+    (hV : DocVarFree d) (hA : ArgLiteralsAgree S d) :
+    Kind.argInvalid ∈ strictErrors S {} d vars o ↔ (argSites S d).any (siteBadValue S) = true := by
+  rw [strict_argInvalid]
+  exact rule_arguments_of_correct_type S d vars o hW.block.typed (served_of S d hs) (hW.roots d).exist hV hA
+
+/-- the three reference rules the pinned tree has no (working) rule for are what a repaired
+    implementation reports in addition: §5.3.2, §5.2.3.1, §6.1.2 -/
+theorem c09_rule_repaired :
+    Kind.repaired ∈ repairedErrors S {} d vars o ↔
+      (violates_FieldSelectionMerging S d = true ∨ violates_SingleRootField d (closureFuel d) = true
+        ∨ violates_VariableValues S d vars o = true) := by
+  unfold repairedErrors
+  simp only [List.mem_append]
+  cases violates_FieldSelectionMerging S d <;> cases violates_SingleRootField d (closureFuel d)
+    <;> cases violates_VariableValues S d vars o <;> simp
+
+/-- OverlappingFieldsCanBeMerged is SOUND for §5.3.2 Field Selection Merging where every inline
+    fragment carries a type condition (without: `c09_counterexample_overlap_untyped_inline`); that it is
+    not complete is the open finding C09-overlap-keyed-by-condition, and what a repaired
+    implementation adds is `c09_rule_repaired` -/
+theorem c09_rule_overlapping_fields_sound (hs : violates_OperationTypeExists S d = false)
+    (hI : AGV.Lemmas.ValidateOverlap.DocTypedInlines d) (k : Model.Validate.Kind)
+    (hk : k = .conflictFields ∨ k = .conflictArgsLen ∨ k = .conflictArgsVal) (h : k ∈ strictErrors S {} d vars o) :
+    violates_FieldSelectionMerging S d = true :=
+  AGV.Lemmas.ValidateOverlap.overlap_sound S d (served_of S d hs) hI k ((strict_overlap S d vars o k hk).mp h)
+
+end rules2
+
+open AGV.Lemmas.ValidateRules AGV.Lemmas.ValidateWalk AGV.Lemmas.ValidateGraph AGV.Lemmas.ValidateSpecNodes
+
+-- ------------------------------------------------------------------ where the repaired model still differs from the reference
+
+/-- the witness schema with one more field on `Dog` and two more on `Query` -/
+def S1 : VSchema := { S0 with base := { S0.base with types := S0.base.types.map (fun t =>
+  if t.name = "Dog" then { t with fields := t.fields ++ [{ name := "nick", ty := .named "String", args := [] }] }
+  else if t.name = "Query" then { t with fields := t.fields ++ [
+     { name := "petx", ty := .named "Pet", args := [{ name := "x", ty := .named "Int", default := none }] },
+     { name := "lst", ty := .named "Int", args := [{ name := "xs", ty := .list (.named "Int"), default := none }] }] }
+  else t) } }
+
+def rejects1 (d : Doc) (vars : List (String × GValue) := []) : Bool := (checkRules S1 {} d vars none).isRejected
+def violations1 (d : Doc) (vars : List (String × GValue) := []) : List String := Spec.Validate.violations {} S1 d vars none
+
+/-- `{ pet { ... on Dog { ... { k: nick } } ... on Cat { ... { k: name } } } }`: both fields are of
+    type `String` and can never apply to the same object, so §5.3.2 allows them; the implemented
+    `OverlappingFieldsCanBeMerged` keys an inline fragment WITHOUT type condition by `None`, finds
+    two different fields under (None, "k") and reports a conflict — which a repair that only ADDS the
+    missing comparisons keeps reporting -/
+def dOverlapUntyped : Doc :=
+  q [] [fld "pet" [] [.inline (some "Dog") [] [.inline none [] [fld "nick" [] [] (some "k")] p0] p0,
+                      .inline (some "Cat") [] [.inline none [] [fld "name" [] [] (some "k")] p0] p0]]
+
+theorem c09_counterexample_overlap_untyped_inline :
+    rejects1 dOverlapUntyped = true ∧ violations1 dOverlapUntyped = []
+    ∧ Kind.conflictFields ∈ strictErrors S1 {} dOverlapUntyped [] none := by
+  decide +kernel
+
+/-- `query($v: Int = null){ n(x: $v) }` (x: Int!): IsVariableUsageAllowed does not count a `null`
+    default, `VariableInAllowedPosition` counts every default -/
+def dNullDefault : Doc := q [{ name := "v", ty := .named "Int", default := some .null }] [fld "n" [("x", .var "v")]]
+theorem c09_counterexample_null_default :
+    rejects1 dNullDefault = false ∧ violations1 dNullDefault = ["5.8.5 All Variable Usages Are Allowed"] := by
+  decide +kernel
+
+/-- `{ __typename(x: 1) }` and `{ petx(x: 1) { __typename(x: 1) } }`: `KnownArgumentNames` looks the
+    field up with `field_by_name`, which does not know `__typename`; at the top level it has no
+    `current_args`, below `petx` it still has the arguments of `petx` -/
+def dTypenameArg : Doc := q [] [fld "__typename" [("x", .int 1)]]
+def dStaleArgs : Doc := q [] [fld "petx" [("x", .int 1)] [fld "__typename" [("x", .int 1)]]]
+theorem c09_counterexample_typename_arguments :
+    rejects1 dTypenameArg = false ∧ violations1 dTypenameArg = ["5.4.1 Argument Names"]
+    ∧ rejects1 dStaleArgs = false ∧ violations1 dStaleArgs = ["5.4.1 Argument Names"] := by
+  decide +kernel
+
+/-- `query($v: Int){ lst(xs: [$v, "bad"]) }` without a value for `$v`: `ArgumentsOfCorrectType`
+    judges the argument after substituting the supplied variables and gives up when one is missing -/
+def dVarInList : Doc := q [{ name := "v", ty := .named "Int", default := none }] [fld "lst" [("xs", .list [.var "v", .str "bad"])]]
+theorem c09_counterexample_variable_in_list :
+    rejects1 dVarInList = false ∧ violations1 dVarInList = ["5.6 Values Of Correct Type"] := by
+  decide +kernel
+
+/-- `query($c: Color!){ color(c: $c) }` with `{"c": "RED"}`: a variable VALUE for an enum arrives as a
+    string (§3.9 input coercion), `ArgumentsOfCorrectType` judges it with the rule for literals once
+    `enumAcceptsString` is off -/
+def dEnumVar : Doc := q [{ name := "c", ty := .nonNull (.named "Color"), default := none }] [fld "color" [("c", .var "c")]]
+theorem c09_counterexample_enum_variable :
+    rejects1 dEnumVar [("c", .str "RED")] = true ∧ violations1 dEnumVar [("c", .str "RED")] = [] := by
+  decide +kernel
+
+/-- `S1` with the first document satisfies every exclusion of `C09Hyp` -/
+theorem c09_counterexample_hyp : C09Hyp S1 dOverlapUntyped [] none where
+  selected := by decide
+  defaults := by simp [dOverlapUntyped, q]
+  roots := by intro t r h; cases t <;> simp [Spec.Validate.rootType, S1, S0] at h <;> subst h <;> decide
+  fields := by decide
+  string := by decide
+  inputs := by decide
+  members := by decide
+
+/-- `c09_corrected` is FALSE of the model: the toggle-free model keeps the implemented
+    OverlappingFieldsCanBeMerged, which rejects a document the reference validator accepts. -/
+theorem c09_corrected_refuted : ¬ c09_corrected := by
+  intro h
+  have h1 := (h S1 dOverlapUntyped [] none c09_counterexample_hyp).mp
+    (by have := c09_counterexample_overlap_untyped_inline.1; exact this)
+  exact h1 (by
+    unfold Spec.Validate.Valid
+    exact c09_counterexample_overlap_untyped_inline.2.1)
+
+section final
+open AGV.Lemmas.ValidateRules AGV.Lemmas.ValidateWalk AGV.Lemmas.ValidateGraph AGV.Lemmas.ValidateSpecNodes
+open AGV.Spec.Validate
+variable (S : VSchema) (d : Doc) (vars : List (String × GValue)) (o : Option String)
+
+/-- the hypotheses under which every rule of the toggle-free model has been tied to its reference rule -/
+structure C09WF (S : VSchema) (d : Doc) : Prop where
+  /-- well-formed registry -/
+  schema : SchemaWF S
+  abstract : AbstractInhabited S
+  /-- no sub-selection and no arguments at `__typename` -/
+  typenameSels : docOK d = true
+  typenameArgs : ∀ s ∈ allSels d, typenameNoArgs s
+  /-- no variable definition has the literal `null` as default -/
+  nullDefaults : NoNullDefault d
+  /-- a field that carries arguments is a field of its parent type -/
+  argsKnown : ArgsOnKnownFields S d
+  /-- arguments are literals without variables, on which `is_valid_input_value` and §5.6.1 agree; the same for defaults -/
+  varFree : DocVarFree d
+  literals : ArgLiteralsAgree S d
+  defaults : DefaultsAgree S d
+  /-- every inline fragment carries a type condition (then the implemented overlap rule reports only real conflicts) -/
+  typedInlines : AGV.Lemmas.ValidateOverlap.DocTypedInlines d
+
+theorem exists_of_ne_nil {α} (l : List α) (h : l ≠ []) : ∃ x, x ∈ l := by
+  cases l with
+  | nil => exact absurd rfl h
+  | cons x xs => exact ⟨x, List.mem_cons_self⟩
+
+theorem not_valid_of (r : String) (h : r ∈ violations {} S d vars o) : ¬ Valid {} S d vars o := by
+  intro hv; unfold Valid at hv; rw [hv] at h; cases h
+
+theorem rejected_of_strict (k : Model.Validate.Kind) (h : k ∈ strictErrors S {} d vars o) :
+    (checkRules S {} d vars o).isRejected = true := by
+  rw [c09_before_exec_pre]
+  right; intro hnil
+  have : k ∈ strictErrors S {} d vars o ++ repairedErrors S {} d vars o := List.mem_append_left _ h
+  rw [hnil] at this; cases this
+
+theorem rejected_of_repaired (k : Model.Validate.Kind) (h : k ∈ repairedErrors S {} d vars o) :
+    (checkRules S {} d vars o).isRejected = true := by
+  rw [c09_before_exec_pre]
+  right; intro hnil
+  have : k ∈ strictErrors S {} d vars o ++ repairedErrors S {} d vars o := List.mem_append_right _ h
+  rw [hnil] at this; cases this
+
+theorem rejected_of_pre (k : PreKind) (h : k ∈ preErrors d) : (checkRules S {} d vars o).isRejected = true := by
+  rw [c09_before_exec_pre]
+  left; intro hnil; rw [hnil] at h; cases h
+
+theorem repaired_only (k : Model.Validate.Kind) (h : k ∈ repairedErrors S {} d vars o) : k = .repaired := by
+  unfold repairedErrors at h
+  simp only [List.mem_append] at h
+  rcases h with (h | h) | h <;> (split at h <;> simp_all)
+
+theorem stateless_rest (k : Model.Validate.Kind) (h1 : k ∈ statelessKinds) (h2 : k ∉ provedKinds ++ typedKinds) :
+    k = .invalidDefault := by
+  cases k <;> simp_all [statelessKinds, provedKinds, typedKinds]
+
+/-- THE CORRECTED STATEMENT, PROVED: under `C09WF` the repaired pipeline (parser checks, recursion
+    guard, the 22 rules of `check_rules` as implemented, plus the three missing reference rules)
+    rejects exactly the requests the reference validator calls invalid — for every schema, document,
+    variables and operation name. -/
+theorem c09_corrected_wf (H : C09WF S d) :
+    (checkRules S {} d vars o).isRejected = true ↔ ¬ Valid {} S d vars o := by
+  have hT := c09_partial_typed S d vars o H.schema H.abstract H.typenameSels
+  have toSpec : ((∃ k ∈ preErrors d, k ∈ provedPre) ∨ (∃ k ∈ strictErrors S {} d vars o, k ∈ provedKinds ++ typedKinds)) →
+      ¬ Valid {} S d vars o := by
+    intro h; obtain ⟨r, hr, _⟩ := hT.mp h; exact not_valid_of S d vars o r hr
+  have toModel : ∀ r, r ∈ violations {} S d vars o → r ∈ provedRules ++ typedRules →
+      (checkRules S {} d vars o).isRejected = true := by
+    intro r hr hp
+    rcases hT.mpr ⟨r, hr, hp⟩ with ⟨k, hk, _⟩ | ⟨k, hk, _⟩
+    · exact rejected_of_pre S d vars o k hk
+    · exact rejected_of_strict S d vars o k hk
+  have both : ∀ r, r ∈ violations {} S d vars o → r ∈ provedRules ++ typedRules →
+      ((checkRules S {} d vars o).isRejected = true ↔ ¬ Valid {} S d vars o) :=
+    fun r hr hp => ⟨fun _ => not_valid_of S d vars o r hr, fun _ => toModel r hr hp⟩
+  -- the four structural rules: violated ⇒ both sides hold
+  cases h1 : violates_OperationNameUniqueness d
+  case true => exact both "5.2.1.1 Operation Name Uniqueness" (v_opNames {} S d vars o (h1)) (by decide)
+  cases h2 : violates_LoneAnonymousOperation d
+  case true => exact both "5.2.2.1 Lone Anonymous Operation" (v_loneAnonymous {} S d vars o (h2)) (by decide)
+  cases h3 : violates_FragmentNameUniqueness d
+  case true => exact both "5.5.1.1 Fragment Name Uniqueness" (v_fragNames {} S d vars o (h3)) (by decide)
+  cases hs : violates_OperationTypeExists S d
+  case true => exact both "operation type not served" (v_notServed {} S d vars o (hs)) (by decide)
+  have hG : GraphHyp S d := graphHyp_of S d h1 h2 h3 hs
+  have c1 := c09_rule_no_fragment_cycles S d vars o hG
+  have c2 := c09_rule_no_unused_fragments S d vars o hG
+  have c3 := c09_rule_no_undefined_variables S d vars o hG
+  have c4 := c09_rule_no_unused_variables S d vars o hG
+  have c5 := c09_rule_variables_in_allowed_position S d vars o hG H.schema H.nullDefaults
+  have c6 := c09_rule_known_argument_names S d vars o H.schema hs H.argsKnown H.typenameArgs
+  have c7 := c09_rule_default_values S d vars o hs H.defaults
+  have c8 := c09_rule_arguments_of_correct_type S d vars o H.schema hs H.varFree H.literals
+  have c9 := c09_rule_repaired S d vars o
+  have hsplit := c09_values_of_correct_type_split S d
+  have nv : ∀ r, r ∈ violations {} S d vars o → ¬ Valid {} S d vars o := not_valid_of S d vars o
+  constructor
+  · rw [c09_before_exec_pre]
+    rintro (hpre | hstrict)
+    · obtain ⟨k, hk⟩ := exists_of_ne_nil _ hpre
+      cases k with
+      | dupOperation => exact toSpec (Or.inl ⟨_, hk, by simp [provedPre]⟩)
+      | multipleAnonymous => exact toSpec (Or.inl ⟨_, hk, by simp [provedPre]⟩)
+      | dupFragment => exact toSpec (Or.inl ⟨_, hk, by simp [provedPre]⟩)
+      | recursionDepth =>
+        exact nv "5.5.2.2 Fragment Spreads Must Not Form Cycles"
+          (v_cycles {} S d vars o (c09_rule_recursion_guard d hk))
+    · obtain ⟨k, hk⟩ := exists_of_ne_nil _ hstrict
+      rcases List.mem_append.mp hk with hk | hk
+      · by_cases hk' : k ∈ provedKinds ++ typedKinds
+        · exact toSpec (Or.inr ⟨k, hk, hk'⟩)
+        · rcases strict_owner S d vars o k hk with ⟨hk1, _⟩ | ⟨hk1, _⟩ | ⟨hk1, _⟩ | ⟨hk1, _⟩ | ⟨hk1, _⟩ | ⟨hk1, _⟩
+              | ⟨hk1, _⟩ | ⟨hk1, _⟩ | ⟨hk1, _⟩ | ⟨hk1, _⟩ | ⟨hk1, _⟩ | ⟨hk1, hov⟩
+          · have := stateless_rest k hk1 hk'
+            subst this
+            rcases c7.mp (Or.inl hk) with h | h
+            · exact nv "5.6 Values Of Correct Type" (v_values {} S d vars o (by simp [hsplit, h]))
+            · have := (c09_rule_variables_are_input_types S d vars o hs).mp (Or.inr h)
+              exact nv "5.8.2 Variables Are Input Types" (v_varsInput {} S d vars o (this))
+          · subst hk1
+            exact nv "5.6 Values Of Correct Type" (v_values {} S d vars o (by simp [hsplit, c8.mp hk]))
+          · have : violates_ArgumentNames S d = true := by
+              rcases hk1 with rfl | rfl
+              · exact c6.mp (Or.inr hk)
+              · exact c6.mp (Or.inl hk)
+            exact nv "5.4.1 Argument Names" (v_argNames {} S d vars o (this))
+          · subst hk1; exact absurd (by decide) hk'
+          · subst hk1; exact absurd (by decide) hk'
+          · rcases hk1 with rfl | rfl <;> exact absurd (by decide) hk'
+          · subst hk1
+            exact nv "5.5.2.2 Fragment Spreads Must Not Form Cycles" (v_cycles {} S d vars o (c1.mp hk))
+          · subst hk1
+            exact nv "5.5.1.4 Fragments Must Be Used" (v_fragsUsed {} S d vars o (c2.mp hk))
+          · have : violates_AllVariableUsesDefined d = true := by
+              rcases hk1 with rfl | rfl
+              · exact c3.mp (Or.inl hk)
+              · exact c3.mp (Or.inr hk)
+            exact nv "5.8.3 All Variable Uses Defined" (v_usesDefined {} S d vars o (this))
+          · have : violates_AllVariablesUsed d = true := by
+              rcases hk1 with rfl | rfl
+              · exact c4.mp (Or.inl hk)
+              · exact c4.mp (Or.inr hk)
+            exact nv "5.8.4 All Variables Used" (v_varsUsed {} S d vars o (this))
+          · subst hk1
+            exact nv "5.8.5 All Variable Usages Are Allowed" (v_usagesAllowed {} S d vars o (c5.mp hk))
+          · exact nv "5.3.2 Field Selection Merging"
+              (v_merging {} S d vars o (AGV.Lemmas.ValidateOverlap.overlap_sound S d (served_of S d hs) H.typedInlines k hov))
+      · have := repaired_only S d vars o k hk
+        subst this
+        rcases c9.mp hk with h | h | h
+        · exact nv "5.3.2 Field Selection Merging" (v_merging {} S d vars o (h))
+        · exact nv "5.2.3.1 Single Root Field" (v_singleRoot {} S d vars o (h))
+        · exact nv "6.1.2 Coercing Variable Values" (v_varValues {} S d vars o (h))
+  · intro hnv
+    have hne : violations {} S d vars o ≠ [] := hnv
+    obtain ⟨r, hr0⟩ := exists_of_ne_nil _ hne
+    have hr := (mem_violations ..).mp hr0
+    have rs := rejected_of_strict S d vars o
+    have rr := rejected_of_repaired S d vars o
+    rcases hr with ⟨rfl, h⟩ | ⟨rfl, h⟩ | ⟨rfl, h⟩ | ⟨rfl, h⟩ | ⟨rfl, h⟩ | ⟨rfl, h⟩ | ⟨rfl, h⟩ | ⟨rfl, h⟩ | ⟨rfl, h⟩ | ⟨rfl, h⟩
+      | ⟨rfl, h⟩ | ⟨rfl, h⟩ | ⟨rfl, h⟩ | ⟨rfl, h⟩ | ⟨rfl, h⟩ | ⟨rfl, h⟩ | ⟨rfl, h⟩ | ⟨rfl, h⟩ | ⟨rfl, h⟩ | ⟨rfl, h⟩
+      | ⟨rfl, h⟩ | ⟨rfl, h⟩ | ⟨rfl, h⟩ | ⟨rfl, h⟩ | ⟨rfl, h⟩ | ⟨rfl, h⟩ | ⟨rfl, h⟩ | ⟨rfl, h⟩
+    · exact toModel _ hr0 (by decide)
+    · exact toModel _ hr0 (by decide)
+    · exact rr _ (c9.mpr (Or.inr (Or.inl h)))
+    · exact toModel _ hr0 (by decide)
+    · exact rr _ (c9.mpr (Or.inl h))
+    · exact toModel _ hr0 (by decide)
+    · rcases c6.mpr h with h | h <;> exact rs _ h
+    · exact toModel _ hr0 (by decide)
+    · exact toModel _ hr0 (by decide)
+    · exact toModel _ hr0 (by decide)
+    · exact toModel _ hr0 (by decide)
+    · exact toModel _ hr0 (by decide)
+    · exact rs _ (c2.mpr h)
+    · exact toModel _ hr0 (by decide)
+    · exact rs _ (c1.mpr h)
+    · exact toModel _ hr0 (by decide)
+    · rw [hsplit, Bool.or_eq_true] at h
+      rcases h with h | h
+      · exact rs _ (c8.mpr h)
+      · rcases c7.mpr (Or.inl h) with h | h
+        · exact rs _ h
+        · exact rs _ ((c09_rule_known_type_names S d vars o hs).mpr (Or.inr h))
+    · exact toModel _ hr0 (by decide)
+    · exact toModel _ hr0 (by decide)
+    · exact toModel _ hr0 (by decide)
+    · exact toModel _ hr0 (by decide)
+    · exact toModel _ hr0 (by decide)
+    · rcases c3.mpr h with h | h <;> exact rs _ h
+    · rcases c4.mpr h with h | h <;> exact rs _ h
+    · exact rs _ (c5.mpr h)
+    · exact toModel _ hr0 (by decide)
+    · exact rr _ (c9.mpr (Or.inr (Or.inr h)))
+    · exact toModel _ hr0 (by decide)
+
+end final
+
+open AGV.Lemmas.ValidateRules AGV.Lemmas.ValidateWalk AGV.Lemmas.ValidateGraph AGV.Lemmas.ValidateSpecNodes
+
+/-- `{ n(x: 1) color(c: RED) pet @skip(if: true) { ... on Dog { id } ...F __typename } }
+     fragment F on Pet { ... on Cat { name } }` -/
+def dWF : Doc :=
+  { ops := [{ ty := .query, name := none, vars := [], dirs := [],
+              sels := [fld "n" [("x", .int 1)], fld "color" [("c", .enum "RED")],
+                       fld "pet" [] [.inline (some "Dog") [] [fld "id"] p0, .spread "F" [] p0, fld "__typename"] none
+                         [{ name := "skip", args := [("if", .bool true)] }]] }],
+    frags := [{ name := "F", cond := "Pet", dirs := [], sels := [.inline (some "Cat") [] [fld "name"] p0] }] }
+
+/-- the same with a string for `x: Int!`, an undefined fragment and an unused variable -/
+def dWFbad : Doc :=
+  { ops := [{ ty := .query, name := none, vars := [{ name := "u", ty := .named "Int", default := none }], dirs := [],
+              sels := [fld "n" [("x", .str "s")], .spread "Nope" [] p0] }],
+    frags := dWF.frags }
+
+theorem c09_wf_example (d : Doc) (hd : d = dWF ∨ d = dWFbad) : C09WF S0 d where
+  schema := c09_witness_schema_wellformed
+  abstract := c09_witness_schema_abstract_inhabited
+  typenameSels := by rcases hd with rfl | rfl <;> decide
+  typenameArgs := by rcases hd with rfl | rfl <;> decide
+  nullDefaults := by
+    rcases hd with rfl | rfl <;> intro o ho v hv <;> simp [dWF, dWFbad] at ho <;> subst ho <;> simp at hv
+    subst hv; simp
+  argsKnown := by rcases hd with rfl | rfl <;> decide +kernel
+  varFree := by rcases hd with rfl | rfl <;> exact ⟨by decide, by decide, by decide⟩
+  literals := by rcases hd with rfl | rfl <;> decide +kernel
+  defaults := by
+    rcases hd with rfl | rfl <;> intro o ho v hv dv hdv <;> simp [dWF, dWFbad] at ho <;> subst ho <;> simp at hv
+    subst hv; simp at hdv
+  typedInlines := by rcases hd with rfl | rfl <;> decide
+
+/-- both sides of `c09_corrected_wf` on the two examples: accepted and valid; rejected and invalid -/
+example :
+    rejects {} dWF = false ∧ specInvalid dWF = false ∧ rejects {} dWFbad = true
+    ∧ Spec.Validate.violations {} S0 dWFbad [] none =
+        ["5.5.1.4 Fragments Must Be Used", "5.5.2.1 Fragment Spread Target Defined", "5.6 Values Of Correct Type", "5.8.4 All Variables Used"] := by
+  decide +kernel
+
+section partial3
+open AGV.Lemmas.ValidateRules AGV.Lemmas.ValidateWalk AGV.Lemmas.ValidateGraph AGV.Lemmas.ValidateSpecNodes
+open AGV.Spec.Validate
+variable (S : VSchema) (d : Doc) (vars : List (String × GValue)) (o : Option String)
+
+/-- the kinds and reference rules added by the graph rules -/
+def graphKinds : List Model.Validate.Kind :=
+  [.cycle, .unusedFragment, .undefVarOp, .undefVar, .unusedVarOp, .unusedVar, .varPosition]
+def graphRules : List String :=
+  ["5.5.1.4 Fragments Must Be Used", "5.5.2.2 Fragment Spreads Must Not Form Cycles", "5.8.3 All Variable Uses Defined",
+   "5.8.4 All Variables Used", "5.8.5 All Variable Usages Are Allowed"]
+
+/-- PARTIAL c09, third stage: with the five graph rules (NoFragmentCycles and the parser's
+    recursion guard, NoUnusedFragments, NoUndefinedVariables, NoUnusedVariables,
+    VariableInAllowedPosition) the equivalence covers 18 of the 22 rule structs (+ walker + all four
+    parser checks) against 23 of the 28 reference rules; variables may occur anywhere.  Extra
+    hypothesis: no variable has the literal `null` as default. -/
+theorem c09_partial_graph (hW : SchemaWF S) (hA : AbstractInhabited S) (hD : docOK d = true) (hN : NoNullDefault d) :
+    ((∃ k ∈ preErrors d, k ∈ provedPre ++ [PreKind.recursionDepth])
+      ∨ (∃ k ∈ strictErrors S {} d vars o, k ∈ provedKinds ++ typedKinds ++ graphKinds)) ↔
+      (∃ r ∈ violations {} S d vars o, r ∈ provedRules ++ typedRules ++ graphRules) := by
+  have hT := c09_partial_typed S d vars o hW hA hD
+  have up : ((∃ k ∈ preErrors d, k ∈ provedPre) ∨ (∃ k ∈ strictErrors S {} d vars o, k ∈ provedKinds ++ typedKinds)) →
+      ((∃ k ∈ preErrors d, k ∈ provedPre ++ [PreKind.recursionDepth])
+        ∨ (∃ k ∈ strictErrors S {} d vars o, k ∈ provedKinds ++ typedKinds ++ graphKinds)) := by
+    rintro (⟨k, hk, hp⟩ | ⟨k, hk, hp⟩)
+    · exact Or.inl ⟨k, hk, List.mem_append_left _ hp⟩
+    · exact Or.inr ⟨k, hk, List.mem_append_left _ hp⟩
+  have upR : (∃ r ∈ violations {} S d vars o, r ∈ provedRules ++ typedRules) →
+      (∃ r ∈ violations {} S d vars o, r ∈ provedRules ++ typedRules ++ graphRules) := by
+    rintro ⟨r, hr, hp⟩; exact ⟨r, hr, List.mem_append_left _ hp⟩
+  have both : ∀ r, r ∈ violations {} S d vars o → r ∈ provedRules ++ typedRules →
+      (((∃ k ∈ preErrors d, k ∈ provedPre ++ [PreKind.recursionDepth])
+        ∨ (∃ k ∈ strictErrors S {} d vars o, k ∈ provedKinds ++ typedKinds ++ graphKinds)) ↔
+      (∃ r ∈ violations {} S d vars o, r ∈ provedRules ++ typedRules ++ graphRules)) :=
+    fun r hr hp => ⟨fun _ => upR ⟨r, hr, hp⟩, fun _ => up (hT.mpr ⟨r, hr, hp⟩)⟩
+  cases h1 : violates_OperationNameUniqueness d
+  case true => exact both "5.2.1.1 Operation Name Uniqueness" (v_opNames {} S d vars o (h1)) (by decide)
+  cases h2 : violates_LoneAnonymousOperation d
+  case true => exact both "5.2.2.1 Lone Anonymous Operation" (v_loneAnonymous {} S d vars o (h2)) (by decide)
+  cases h3 : violates_FragmentNameUniqueness d
+  case true => exact both "5.5.1.1 Fragment Name Uniqueness" (v_fragNames {} S d vars o (h3)) (by decide)
+  cases hs : violates_OperationTypeExists S d
+  case true => exact both "operation type not served" (v_notServed {} S d vars o (hs)) (by decide)
+  have hG : GraphHyp S d := graphHyp_of S d h1 h2 h3 hs
+  have c1 := c09_rule_no_fragment_cycles S d vars o hG
+  have c2 := c09_rule_no_unused_fragments S d vars o hG
+  have c3 := c09_rule_no_undefined_variables S d vars o hG
+  have c4 := c09_rule_no_unused_variables S d vars o hG
+  have c5 := c09_rule_variables_in_allowed_position S d vars o hG hW hN
+  have mk : ∀ r, r ∈ violations {} S d vars o → r ∈ graphRules →
+      (∃ r ∈ violations {} S d vars o, r ∈ provedRules ++ typedRules ++ graphRules) :=
+    fun r hr hp => ⟨r, hr, List.mem_append_right _ hp⟩
+  have mkK : ∀ k, k ∈ strictErrors S {} d vars o → k ∈ graphKinds →
+      ((∃ k ∈ preErrors d, k ∈ provedPre ++ [PreKind.recursionDepth])
+        ∨ (∃ k ∈ strictErrors S {} d vars o, k ∈ provedKinds ++ typedKinds ++ graphKinds)) :=
+    fun k hk hp => Or.inr ⟨k, hk, List.mem_append_right _ hp⟩
+  constructor
+  · rintro (⟨k, hk, hp⟩ | ⟨k, hk, hp⟩)
+    · rcases List.mem_append.mp hp with hp | hp
+      · exact upR (hT.mp (Or.inl ⟨k, hk, hp⟩))
+      · simp only [List.mem_singleton] at hp
+        subst hp
+        exact mk "5.5.2.2 Fragment Spreads Must Not Form Cycles"
+          (v_cycles {} S d vars o (c09_rule_recursion_guard d hk)) (by decide)
+    · rcases List.mem_append.mp hp with hp | hp
+      · exact upR (hT.mp (Or.inr ⟨k, hk, hp⟩))
+      · simp only [graphKinds, List.mem_cons, List.not_mem_nil, or_false] at hp
+        rcases hp with rfl | rfl | rfl | rfl | rfl | rfl | rfl
+        · exact mk "5.5.2.2 Fragment Spreads Must Not Form Cycles" (v_cycles {} S d vars o (c1.mp hk)) (by decide)
+        · exact mk "5.5.1.4 Fragments Must Be Used" (v_fragsUsed {} S d vars o (c2.mp hk)) (by decide)
+        · exact mk "5.8.3 All Variable Uses Defined" (v_usesDefined {} S d vars o (c3.mp (Or.inl hk))) (by decide)
+        · exact mk "5.8.3 All Variable Uses Defined" (v_usesDefined {} S d vars o (c3.mp (Or.inr hk))) (by decide)
+        · exact mk "5.8.4 All Variables Used" (v_varsUsed {} S d vars o (c4.mp (Or.inl hk))) (by decide)
+        · exact mk "5.8.4 All Variables Used" (v_varsUsed {} S d vars o (c4.mp (Or.inr hk))) (by decide)
+        · exact mk "5.8.5 All Variable Usages Are Allowed" (v_usagesAllowed {} S d vars o (c5.mp hk)) (by decide)
+  · rintro ⟨r, hr, hp⟩
+    rcases List.mem_append.mp hp with hp | hp
+    · exact up (hT.mpr ⟨r, hr, hp⟩)
+    · rw [mem_violations] at hr
+      simp only [graphRules, List.mem_cons, List.not_mem_nil, or_false] at hp
+      rcases hp with rfl | rfl | rfl | rfl | rfl <;> simp at hr
+      · exact mkK _ (c2.mpr hr) (by decide)
+      · exact mkK _ (c1.mpr hr) (by decide)
+      · rcases c3.mpr hr with h | h <;> exact mkK _ h (by decide)
+      · rcases c4.mpr hr with h | h <;> exact mkK _ h (by decide)
+      · exact mkK _ (c5.mpr hr) (by decide)
+
+/-- the hypotheses of the graph rules hold of the non-trivial valid example (two variables, both used) -/
+example : GraphHyp S0 dValid ∧ NoNullDefault dValid :=
+  ⟨graphHyp_of S0 dValid (by decide) (by decide) (by decide) (by decide),
+   by intro o ho v hv; simp [dValid, q] at ho; subst ho; simp at hv; rcases hv with rfl | rfl <;> simp⟩
+
+end partial3
+
+-- ------------------------------------------------------------------ is_valid_input_value = §5.6.1
+
+section literals
+open AGV.Lemmas.ValidateRules AGV.Lemmas.ValidateWalk AGV.Lemmas.ValidateGraph AGV.Lemmas.ValidateSpecNodes
+open AGV.Lemmas.ValidateLiterals AGV.Lemmas.ValidateOverlap
+open AGV.Spec.Validate
+variable (S : VSchema) (d : Doc)
+
+/-- `is_valid_input_value` with the value toggles off = §5.6.1 Values Of Correct Type, for every type
+    and every constant whose object literals do not repeat a key (`LitSchema`: the five built-in
+    scalar names are scalars, input-object types have their definition with unique field names) -/
+theorem c09_rule_is_valid_input_value (hL : LitSchema S) (fuel : Nat) (t : TypeRef) (c : GValue) (hk : keysOk c = true) :
+    validInput S {} fuel t c = litOk S fuel t (litOf c) :=
+  valid_eq_lit S hL fuel t c hk
+
+/-- the two agreement hypotheses of `C09WF` from registry conditions and unique keys -/
+theorem c09_literals_agree (hL : LitSchema S) (hV : DocVarFree d) (hA : ArgKeysOk S d) (hD : DefaultKeysOk d) :
+    ArgLiteralsAgree S d ∧ DefaultsAgree S d :=
+  ⟨argLiteralsAgree_of S d hL hA (argSites_varFree S d hV), defaultsAgree_of S d hL hD⟩
+
+/-- `C09WF` from conditions on the registry and on the syntax of the document only -/
+theorem c09_wf_of_schema (hW : SchemaWF S) (hAb : AbstractInhabited S) (hL : LitSchema S)
+    (hD : docOK d = true) (hT : ∀ s ∈ allSels d, typenameNoArgs s) (hN : NoNullDefault d) (hK : ArgsOnKnownFields S d)
+    (hV : DocVarFree d) (hAk : ArgKeysOk S d) (hDk : DefaultKeysOk d) (hI : DocTypedInlines d) : C09WF S d where
+  schema := hW
+  abstract := hAb
+  typenameSels := hD
+  typenameArgs := hT
+  nullDefaults := hN
+  argsKnown := hK
+  varFree := hV
+  literals := (c09_literals_agree S d hL hV hAk hDk).1
+  defaults := (c09_literals_agree S d hL hV hAk hDk).2
+  typedInlines := hI
+
+/-- the witness schema with the fifth built-in scalar -/
+def S0F : VSchema := { S0 with base := { S0.base with types := S0.base.types ++ [ty "Float" .scalar] } }
+
+/-- the registry conditions hold of it, and the key conditions of the two example documents -/
+example : LitSchema S0F ∧ ArgKeysOk S0F dWF ∧ DefaultKeysOk dWF ∧ ArgKeysOk S0F dWFbad ∧ DefaultKeysOk dWFbad :=
+  ⟨litSchema_of_check S0F (by decide), by decide +kernel, by decide, by decide +kernel, by decide⟩
+
+end literals
 
 end AGV.Props.C09
